@@ -280,22 +280,31 @@ func (s *SwapStateMachine) exponentialBackoffAndJitter() {
 
 // Recover tries to continue from the current state, by doing the associated Action
 func (s *SwapStateMachine) Recover() (bool, error) {
+	// The swap is already in the active map: a message of the peer or a
+	// watcher callback may be handled while it recovers. Reading the state and
+	// running its action work on the swap, they need the lock of the swap like
+	// every other action. SendEvent takes the lock itself.
+	s.mutex.Lock()
 	log.Infof("[Swap:%s]: Recovering from state %s", s.SwapId.String(), s.Current)
 	state, ok := s.States[s.Current]
 	if !ok {
+		defer s.mutex.Unlock()
 		return false, fmt.Errorf("unknown state: %s for swap %s", s.Current, s.SwapId.String())
 	}
 
 	if !ok || state.Action == nil {
 		// configuration error
+		s.mutex.Unlock()
 		return false, ErrFsmConfig
 	}
 	if state.FailOnrecover {
+		s.mutex.Unlock()
 		return s.SendEvent(Event_ActionFailed, nil)
 	}
 
 	nextEvent := state.Action.Execute(s.swapServices, s.Data)
 	err := s.swapServices.swapStore.UpdateData(s)
+	s.mutex.Unlock()
 	if err != nil {
 		return false, err
 	}
